@@ -90,6 +90,7 @@ def run_wqcases(chk, pid, runner, tier, seed, workdir, log, only_key):
     # three-fold reproduction on the real code
     rr = os.path.join(workdir, "rerun.json")
     json.dump([{"W": cases[i]["desc"]["W"], "L": cases[i]["desc"]["L"], "opts": cases[i]["desc"].get("opts") or [],
+                "sibling": bool(cases[i]["desc"].get("sibling")),
                 "stimuli": cases[i]["desc"]["stimuli"]}
                for i, _, _ in chosen], open(rr, "w"))
     out2 = os.path.join(workdir, name + "-rerun")
